@@ -793,6 +793,76 @@ func MeasureExact(f func()) uint64 {
 	return b.TotalAlloc - a.TotalAlloc
 }
 
+// AllocSite runs f once more with every allocation profiled and names the function that is
+// responsible for most of the bytes allocated meanwhile: the innermost function of a
+// github.com/jcmturner package on the allocation stack with the largest byte count (the
+// innermost non-runtime, non-reflect function if there is none). It is used only to attribute
+// an exceedance that was already confirmed, so that the fingerprint of an unbounded allocation
+// names the code that makes it and not only the entry point through which it was reached.
+func AllocSite(f func()) (site string) {
+	type key [32]uintptr
+	snap := func() map[key]int64 {
+		runtime.GC()
+		runtime.GC()
+		n, _ := runtime.MemProfile(nil, true)
+		for {
+			recs := make([]runtime.MemProfileRecord, n+64)
+			m, ok := runtime.MemProfile(recs, true)
+			if !ok {
+				n = m
+				continue
+			}
+			out := make(map[key]int64, m)
+			for _, r := range recs[:m] {
+				out[key(r.Stack0)] += r.AllocBytes
+			}
+			return out
+		}
+	}
+	old := runtime.MemProfileRate
+	runtime.MemProfileRate = 1
+	before := snap()
+	func() {
+		defer func() { recover() }()
+		f()
+	}()
+	after := snap()
+	runtime.MemProfileRate = old
+	var best key
+	var bestN int64
+	for k, v := range after {
+		if d := v - before[k]; d > bestN {
+			best, bestN = k, d
+		}
+	}
+	if bestN == 0 {
+		return "unattributed"
+	}
+	n := 0
+	for n < len(best) && best[n] != 0 {
+		n++
+	}
+	frames := runtime.CallersFrames(best[:n])
+	fallback := ""
+	for {
+		fr, more := frames.Next()
+		fn := fr.Function
+		if strings.HasPrefix(fn, "github.com/jcmturner/") {
+			return fn
+		}
+		if fallback == "" && fn != "" && !strings.HasPrefix(fn, "runtime.") && !strings.HasPrefix(fn, "reflect.") {
+			fallback = fn
+		}
+		if !more {
+			break
+		}
+	}
+	if fallback == "" {
+		return "unattributed"
+	}
+	return fallback
+}
+
 // ---------------------------------------------------------------------------------------
 // Panic guard
 
@@ -1070,6 +1140,17 @@ func CrashSummary(log string) (summary string, hasFrame, ok bool) {
 		first = first[:200]
 	}
 	first = csDigits.ReplaceAllString(first, "N")
+	// every wording of a failed allocation is the same event; inside the rpc dependency the package is the site
+	if strings.HasPrefix(first, "fatal error: out of memory") || strings.Contains(first, "cannot allocate memory") {
+		first = "fatal error: out of memory"
+	}
+	if strings.HasPrefix(frame, "github.com/jcmturner/rpc/") {
+		if i := strings.LastIndex(frame, "/"); i > 0 {
+			if j := strings.Index(frame[i:], "."); j > 0 {
+				frame = frame[:i+j]
+			}
+		}
+	}
 	return first + " @ " + frame, frame != "", true
 }
 
